@@ -19,7 +19,7 @@ structure Plain (ow : OWorld) : Prop where
 theorem Plain_init : Plain OWorld.init := ⟨rfl, rfl, rfl⟩
 
 /-- a configuration under which the open path is transparent -/
-def Cfg.plain (cfg : Cfg) : Prop := cfg.createAtArg = true ∧ locking cfg.low = false
+def Cfg.plain (cfg : Cfg) : Prop := cfg.createAtArg = true ∧ cfg.openAtArg = true ∧ locking cfg.low = false
 
 theorem openFile_create (w : World) (hn : w.handle = none) :
     openFile w .overwrite = (createW (settle w), none) := by
@@ -42,7 +42,7 @@ theorem pathState_missing {ow : OWorld} (h : (settle ow.w).disk = none) : pathSt
 theorem openO_plain {cfg : Cfg} (hc : Cfg.plain cfg) {ow : OWorld} (hp : Plain ow) (m : Mode) :
     (openO cfg ow m).1.w = (openFile ow.w m).1 ∧ (openO cfg ow m).2 = (openFile ow.w m).2 ∧
     Plain (openO cfg ow m).1 := by
-  obtain ⟨hat, hlk⟩ := hc
+  obtain ⟨hat, hoa, hlk⟩ := hc
   rcases Option.eq_none_or_eq_some ow.w.handle with hn | ⟨hd, ho⟩
   · have hcreate : ∀ ps, openDecision ps m = .create .trunc .overwrite →
         pathState ow = ps → openFile ow.w m = (createW (settle ow.w), none) →
@@ -60,7 +60,7 @@ theorem openO_plain {cfg : Cfg} (hc : Cfg.plain cfg) {ow : OWorld} (hp : Plain o
       intro fl d hdec hm hdd
       have e : openO cfg ow m =
           ({ ow with w := (openFile ow.w m).1, flag := ow.sb3 && decide (fl = .rdwr) }, none) := by
-        simp only [openO, hn, pathState_file hdd, hdec, hp.flag]
+        simp only [openO, hn, pathState_file hdd, hdec, hp.flag, hoa]
         rfl
       rw [e, openFile_existing m hm hn hdd]
       exact ⟨rfl, rfl, ⟨hp.sb3, by simp [hp.sb3], hp.att⟩⟩
@@ -196,7 +196,8 @@ theorem run_held {cfg : Cfg} (hk : closes Gen.fileFlushBody = false) (es : List 
     exact ih (session_held hk h e (hs e List.mem_cons_self)) (fun e' he' => hs e' (List.mem_cons_of_mem _ he'))
 
 /-- a writer that holds a marked file is killed: every later open that does not truncate is refused -/
-theorem held_kill_refused {cfg : Cfg} {ow : OWorld} (h : Held ow) (m : Mode) (hm : m ≠ .overwrite) :
+theorem held_kill_refused {cfg : Cfg} (hoa : cfg.openAtArg = true) {ow : OWorld} (h : Held ow) (m : Mode)
+    (hm : m ≠ .overwrite) :
     (reopenO cfg ow m).1 = some .runtimeError := by
   obtain ⟨_, hdisk, hflag, _⟩ := h
   obtain ⟨d, hd⟩ := Option.isSome_iff_exists.mp hdisk
@@ -209,8 +210,8 @@ theorem held_kill_refused {cfg : Cfg} {ow : OWorld} (h : Held ow) (m : Mode) (hm
   show (openO cfg ow' m).2 = some .runtimeError
   cases m with
   | overwrite => exact absurd rfl hm
-  | readOnly => simp only [openO, hn', hps, openDecision, hf', if_true]
-  | readWrite => simp only [openO, hn', hps, openDecision, hf', if_true]
+  | readOnly => simp [openO, hn', hps, openDecision, hf', hoa]
+  | readWrite => simp [openO, hn', hps, openDecision, hf', hoa]
 
 /-! ### any configuration that creates the file at the named path: the content level is `step` -/
 
@@ -237,7 +238,7 @@ theorem close_clears {cfg : Cfg} {ow : OWorld} (h : Held ow) (hwf : WF ow.w) (bo
   · rw [hstep]; exact hl.2.2.1
 
 /-- an unmarked, closed, settled file opens without truncation, whatever the configuration -/
-theorem reopen_unmarked {cfg : Cfg} {c : Store} {ow : OWorld} (hset : Settled c ow.w)
+theorem reopen_unmarked {cfg : Cfg} (hoa : cfg.openAtArg = true) {c : Store} {ow : OWorld} (hset : Settled c ow.w)
     (hf : ow.flag = false) (m : Mode) (hm : m ≠ .overwrite) :
     reopenO cfg ow m = (none, some c) := by
   let ow' : OWorld := { ow with w := (step ow.w .kill).1, detached := false }
@@ -252,14 +253,14 @@ theorem reopen_unmarked {cfg : Cfg} {c : Store} {ow : OWorld} (hset : Settled c 
   | readOnly =>
     have e : openO cfg ow' .readOnly =
         ({ ow' with w := (openFile ow'.w .readOnly).1, flag := ow'.sb3 && decide (Flags.rdonly = .rdwr) }, none) := by
-      simp only [openO, hn', hps, openDecision, hf']
+      simp only [openO, hn', hps, openDecision, hf', hoa]
       rfl
     rw [e, openFile_existing .readOnly (by simp) hn' hd]
     rfl
   | readWrite =>
     have e : openO cfg ow' .readWrite =
         ({ ow' with w := (openFile ow'.w .readWrite).1, flag := ow'.sb3 && decide (Flags.rdwr = .rdwr) }, none) := by
-      simp only [openO, hn', hps, openDecision, hf']
+      simp only [openO, hn', hps, openDecision, hf', hoa]
       rfl
     rw [e, openFile_existing .readWrite (by simp) hn' hd]
     rfl
